@@ -181,7 +181,11 @@ class DavSys:
         n, self.nreq = self.nreq, 0
         return n
 
+    recording = True
+
     def violation(self, prop, what, summary, detail=None):
+        if not self.recording:
+            return
         sig = "%s|%s|%s" % (prop, self.cfg.label, what)
         w = {"config": self.cfg.label, "history": [list(o) for o in self.hist], "detail": detail}
         e = self.vios.get(sig)
@@ -379,8 +383,9 @@ class DavSys:
             info["exc"] = resp.exc
         self.hist.append(op)
         audit = self.audit()
-        if check:
-            self.check(op, info, resp, prev, audit, model_before, target_coll, target_name)
+        self.recording = check
+        self.check(op, info, resp, prev, audit, model_before, target_coll, target_name)
+        self.recording = True
         self.last_audit = audit
         return info
 
@@ -397,7 +402,9 @@ class DavSys:
             val = "*"
         elif spec.startswith("etagof:"):
             # etag a given body would have on a git store (stale versions)
-            val = '"%s"' % git_blob_id(B.ALL_BODIES[spec[7:]])
+            from . import storesys
+
+            val = '"%s"' % storesys.stored_etag(spec[7:])
         else:
             val = spec
         return hname, val
@@ -562,6 +569,8 @@ class DavSys:
             self.check_c08(op, info, prev, audit, tcoll)
         if "C09" in orc:
             self.check_c09(op, info, prev, audit, tcoll, tname)
+        if "C06" in orc:
+            self.check_c06(op, info, resp, prev, audit, tcoll, tname)
 
     @staticmethod
     def observable(a):
@@ -678,7 +687,8 @@ class DavSys:
                 for view in expected_views:
                     if view not in views:
                         self.violation("C02", "view-missing:%s" % view, "resource missing from view %s" % view, {"op": op, "name": self.canon_name(nm), "coll": coll})
-                self.obs.append(("etag", self.cfg.label, et, sha(body)))
+                if self.recording:
+                    self.obs.append(("etag", self.cfg.label, et, sha(body)))
             # etag changes iff served bytes change
             pa = prev[coll]
             if pa["exists"]:
@@ -717,7 +727,8 @@ class DavSys:
             state = self.coll_state(coll, a)
             # versioned metadata is part of what a git tag covers
             meta = tuple(sorted(self.model[coll]["props"].items())) if self.model.get(coll) else ()
-            self.obs.append(("tag", self.cfg.label, coll if self.cfg.metadata != "file" else "*", tag, state, meta, a["props"].get("resourcetype") and tuple(a["props"]["resourcetype"])))
+            if self.recording:
+                self.obs.append(("tag", self.cfg.label, coll if self.cfg.metadata != "file" else "*", tag, state, meta, a["props"].get("resourcetype") and tuple(a["props"]["resourcetype"])))
             pa = prev[coll]
             if not pa["exists"]:
                 continue
@@ -772,6 +783,57 @@ class DavSys:
                     self.violation("C09", "parent-not-previous-head:%s" % kind, "new commit's parent is %s, previous head was %s" % (hp[1:], pcommits[0]), {"op": op, "coll": coll})
             if delta == 0 and commits and pcommits and commits[0] != pcommits[0]:
                 self.violation("C09", "head-rewritten:%s" % kind, "HEAD changed without a new commit", {"op": op, "coll": coll})
+
+    def check_c06(self, op, info, resp, prev, audit, tcoll, tname):
+        kind = op[0]
+        for coll in ("cal", "c2"):
+            a = audit[coll]
+            if not a["exists"]:
+                continue
+            uids = {}
+            for nm, body in a["bodies"].items():
+                if nm.endswith(".ics"):
+                    u = ical.first_uid(body)
+                    if u is not None:
+                        uids.setdefault(u, []).append(self.canon_name(nm))
+            for u, ns in uids.items():
+                if len(ns) > 1:
+                    self.violation("C06", "duplicate-uid-stored:%s" % kind, "two members share UID %r: %s" % (u, sorted(ns)), {"op": op})
+        if not hasattr(self, "uidhist"):
+            self.uidhist = {}
+            self.restarted = False
+        if kind == "restart":
+            self.restarted = True
+        if kind == "delete" and info.get("success"):
+            old = prev[tcoll]["bodies"].get(tname)
+            if old is not None and tname.endswith(".ics"):
+                u = ical.first_uid(old)
+                if u is not None:
+                    self.uidhist[(tcoll, u)] = "deleted"
+        if kind not in ("put", "post") or resp is None:
+            return
+        body = B.ALL_BODIES[op[3] if kind == "put" else op[2]]
+        isics = (tname or "x.ics").endswith(".ics") if kind == "put" else B.ct_for_body(op[2]) == B.CT_ICS
+        if not isics or tcoll not in ("cal", "c2") or not prev[tcoll]["exists"]:
+            return
+        uid = ical.first_uid(body)
+        holders = [self.canon_name(n) for n, c in prev[tcoll]["bodies"].items() if n != tname and n.endswith(".ics") and uid is not None and ical.first_uid(c) == uid]
+        conflict = "{urn:ietf:params:xml:ns:caldav}no-uid-conflict" in dav.error_tags(resp)
+        if conflict and not holders:
+            how = self.uidhist.get((tcoll, uid), "never-held")
+            self.violation("C06", "false-conflict:%s%s" % (how, ":after-restart" if self.restarted else ""), "a write was refused with no-uid-conflict although no other resource holds UID %r (previous holder: %s)" % (uid, how), {"op": op})
+        if info.get("success") and holders:
+            self.violation("C06", "missed-conflict:%s" % kind, "a write gave a resource the UID %r already held by %s" % (uid, holders), {"op": op})
+        if conflict and self.observable(prev[tcoll]) != self.observable(audit[tcoll]):
+            self.violation("C06", "refused-conflict-changed-state", "a write refused for a UID conflict changed the collection", {"op": op})
+        if info.get("success"):
+            old = prev[tcoll]["bodies"].get(tname) if tname else None
+            if old is not None:
+                ou = ical.first_uid(old)
+                if ou is not None and ou != uid:
+                    self.uidhist[(tcoll, ou)] = "changed-uid"
+            if uid is not None:
+                self.uidhist.pop((tcoll, uid), None)
 
     def versioned_meta(self, a):
         if self.cfg.metadata != "file":
